@@ -719,7 +719,7 @@ class NodeMiscPart:
                                                                         [None, f"id{i}", 100 + i, "it's", -5 - i][(i + k) % 5] if (i + k) % 2 else None))
                     yield dict(typed=typed, univ=NM_UNIV, nodes=nodes, cls=("My" if k % 3 == 0 else "") + ("TypedTree" if typed else "Tree"),
                                name=NM_TREE_NAMES[k % len(NM_TREE_NAMES)])
-        for j in range(80 if tier == "quick" else 600):
+        for j in range(50 if tier == "quick" else 600):
             n = rng.randint(2, 10)
             typed = rng.random() < 0.4
             shape = H.random_shape(rng, n, deep=rng.choice([0.2, 0.5, 0.8]))
@@ -1380,7 +1380,7 @@ class WritersPart:
     case_vo = "theories/Cases/CaseMiscWriters.vo"
     run_fn = "run_misc_writers"
     rule = ("to_mermaid_flowchart / to_dotfile as WRITERS: plain and typed trees (forests <= 3 nodes, seeded random trees up to 8 nodes), "
-            "start = the tree and every second node, 6 chart options (3 with a failing str mapper) and 3 DOT options x target stream / "
+            "start = the tree and every third node, 6 chart options (3 with a failing str mapper) and 3 DOT options x target stream / "
             "path x format None / 'png'; observed: the text in the stream or in the file that was written (the path itself or the path "
             "with the replaced suffix), refusal, and the PARTIAL text a failing mapper leaves behind; the external converters are not run "
             "as part of the observation; oracle: text = lines of the iterator API + newline each, refusal writes nothing")
@@ -1393,7 +1393,7 @@ class WritersPart:
                     i += 1
                     nodes = B.shape_to_nodes(shape, lambda k, d, s, i=i: ((k * 2 + i) % len(WR_UNIV), ("k%d" % (k % 2)) if typed else None, None))
                     yield dict(typed=typed, univ=WR_UNIV, nodes=nodes, seed=i)
-        for j in range(10 if tier == "quick" else 150):
+        for j in range(5 if tier == "quick" else 150):
             n = rng.randint(3, 8)
             typed = rng.random() < 0.4
             shape = H.random_shape(rng, n, deep=rng.choice([0.2, 0.5, 0.8]))
@@ -1422,7 +1422,22 @@ class WritersPart:
         fails, mer_obs, dot_obs, mer_terms, dot_terms = [], [], [], [], []
         tmp = Path(tempfile.mkdtemp(prefix="nutree_wr_"))
 
+        def short(ob):
+            """long texts are compared as (length, polynomial hash mod 2^61), as CaseMiscWriters.sx_t"""
+            t = ob[-1]
+            if not isinstance(t, str):
+                return ob
+            if len(t) <= 100:
+                return ob[:-1] + [[0, t]]
+            h = 7
+            for ch in t:
+                h = (h * 65599 + ord(ch) + 1) & ((1 << 61) - 1)
+            return ob[:-1] + [[1, len(t), h]]
+
         def outcome(call, path, other, fmt, want_lines):
+            return short(outcome_raw(call, path, other, fmt, want_lines))
+
+        def outcome_raw(call, path, other, fmt, want_lines):
             """run one writer call; returns the observation"""
             buf = _io.StringIO()
             target = path if path is not None else buf
@@ -1457,7 +1472,7 @@ class WritersPart:
             return [3, 1, False, text]
 
         k = 0
-        starts = [None] + nodes[::2]
+        starts = [None] + nodes[::3]
         for st in starts:
             for o in WR_CHART_OPTS:
                 p, f = rng.random() < 0.4, rng.random() < 0.3
